@@ -216,9 +216,11 @@ theorem get_sat {lvl : Nat} (E : Env) (t : PTree) (fuel key : Nat) :
   · exact Sat.pure (fun _ _ _ => trivial)
   · apply Sat.bind (load_sat E t.root)
     intro a
+    apply Sat.bind (layerM_sat E key)
+    intro lay
     dsimp only
     apply Sat.bind ((findNode_sat E key _ false fuel a t.height []).conseq (Nat.le_refl _)
-      (fun s _ h => ⟨h.1, fun p hp => by simp at hp⟩) (fun _ _ _ h => h))
+      (fun s _ h => ⟨h.2.and_left.vis, fun p hp => by simp at hp⟩) (fun _ _ _ h => h))
     intro fd
     apply Sat.bind (read_sat fd.node)
     intro nd
